@@ -83,11 +83,12 @@ class C10(PoolCheck):
                 else:
                     op['abort'] = {'kind': kind, 'k': rng.randrange(1, 12)}
             hist.append(op)
-        return {'entry': key, 'history': hist}
+        return {'entry': key, 'history': hist, 'knobs': histories.gen_knobs(rng)}
 
     def run_case(self, case):
         e = self.entries[case['entry']]
         schema = e.schema
+        histories.apply_knobs(schema, case.get('knobs'))
         env = self.new_env()
         counters = {}
         violations = []
@@ -134,6 +135,9 @@ class C10(PoolCheck):
             env.cleanup()
         docs_used = {op['doc'] for op in case['history']}
         counters['ops'] = len(results)
+        kn = case.get('knobs') or {}
+        counters['knob_selectors_prefill_%s' % kn.get('selectors_prefill', 0)] = 1
+        counters['knob_use_cache_%s' % kn.get('use_cache', True)] = 1
         nontrivial = len(results) >= 2 and (aborted_any or len(docs_used) >= 2)
         return {'violations': violations, 'skeleton': [e.family.name, e.version, skel], 'nontrivial': nontrivial,
                 'counters': counters, 'digest': core.stable_hash(results),
